@@ -51,4 +51,6 @@ def run(rep, ctx):
     run_polarity(rep, g)
     scope = {p for p in g.fns if p.startswith('leb128::') or p.startswith('read::reader::') or p.startswith('<u') and 'ReaderOffset' in p
              or p.startswith('endianity::') or p.startswith('write::writer::')}
+    from ..liveness import run_liveness
+    run_liveness(rep, ctx.fx, ['N'])
     n = c01.run_N(rep, g, scope, scope_name='primitive codec (leb128, Reader defaults, ReaderOffset impls, Endianity, Writer defaults)', floor=8)
